@@ -500,7 +500,7 @@ def drain(res, pending):
 
 
 def run(ctx):
-    n = 1200 if ctx.tier == 'quick' else 60000
+    n = 1200 if ctx.tier == 'quick' else 200000
     shards = [{'shard': i, 'n': n} for i in range(common.NCPU)]
     results = common.run_shards('checks.c12', shards, timeout=3000)
     common.merge_shards(ctx, results)
